@@ -62,6 +62,7 @@ func c40Requests(thorough bool) []genRequest {
 	synth = append(synth, amplified("d")...)
 	synth = append(synth, bigSchemas("d", true)...)
 	synth = append(synth, nameSchemas("d")...)
+	synth = append(synth, nestedSchemas("d")...)
 	for _, s := range synth {
 		for _, lv := range apiLevels {
 			out = append(out, genRequest{fmt.Sprintf("synthetic %s (%s) level=%s", s.fdp.GetName(), s.name, lv), gen.Request(gen.WithGlobalDeps(s.fdp), []string{s.fdp.GetName()}, "default_api_level="+lv)})
